@@ -606,3 +606,114 @@ Lemma refuted_others :
   /\ glob_agrees w_bfn [s "p"] w5_tree [w6_pat] [] false false = false
   /\ glob_agrees w_bfn [] w7_tree [[Seg [AStar]; DStar]] [] false false = false.
 Proof. vm_compute. repeat split. Qed.
+
+(* ------------------------------------------------------------------------------------------- Part B *)
+(* isHidden on a path string = the hidden test on its LAST component only - for every path: components before
+   the last are never looked at (this is the defect class file-in-hidden-directory-returned, and also all the
+   hidden filter guarantees) *)
+Lemma split_on_name x r : forallb not_slash x = true ->
+  split_on SLASH (x ++ SLASH :: r) = x :: split_on SLASH r.
+Proof.
+  induction x as [|c x IH]; intros H.
+  - cbn [app split_on]. now rewrite N.eqb_refl.
+  - cbn in H. apply andb_prop in H as [Hc Hx]. cbn [app split_on].
+    unfold not_slash in Hc. apply negb_true_iff in Hc. rewrite Hc, (IH Hx). reflexivity.
+Qed.
+
+Lemma split_on_single x : forallb not_slash x = true -> split_on SLASH x = [x].
+Proof.
+  induction x as [|c x IH]; intros H; [reflexivity|].
+  cbn in H. apply andb_prop in H as [Hc Hx]. cbn [split_on].
+  unfold not_slash in Hc. apply negb_true_iff in Hc. rewrite Hc, (IH Hx). reflexivity.
+Qed.
+
+Lemma split_on_intercalate g : g <> [] -> forallb name_ok g = true -> split_on SLASH (intercalate g) = g.
+Proof.
+  induction g as [|x g IH]; intros Hne Hg; [congruence|].
+  cbn [forallb] in Hg. apply andb_prop in Hg as [Hx Hg]. rewrite intercalate_cons.
+  destruct g as [|y g].
+  - cbn [tail_str]. rewrite app_nil_r. now apply split_on_single, name_ok_not_slash.
+  - cbn [tail_str]. rewrite split_on_name by now apply name_ok_not_slash.
+    f_equal. apply IH; [discriminate|exact Hg].
+Qed.
+
+Lemma base_of_path g : g <> [] -> forallb name_ok g = true -> last g [] <> [] ->
+  base (intercalate g) = last g [].
+Proof.
+  intros Hne Hg Hl. unfold base, last_comp. rewrite (split_on_intercalate g Hne Hg).
+  destruct (intercalate g) eqn:E.
+  - exfalso. assert (H := split_on_intercalate g Hne Hg). rewrite E in H. cbn in H.
+    subst g. now apply Hl.
+  - destruct (last g []) eqn:El; [congruence|reflexivity].
+Qed.
+
+Theorem hidden_filter_is_base_name pkg f :
+  f <> [] -> forallb name_ok (pkg ++ f) = true -> last f [] <> [] ->
+  is_hidden (path_str pkg f) = name_hidden (last f []).
+Proof.
+  intros Hne Hg Hl. unfold is_hidden, path_str.
+  assert (Hlast : last (pkg ++ f) [] = last f []).
+  { clear Hg. induction pkg as [|x pkg IH]; [reflexivity|].
+    cbn [app]. destruct (pkg ++ f) eqn:E; [apply app_eq_nil in E as [_ E]; congruence|]. cbn [last]. exact IH. }
+  rewrite base_of_path; [now rewrite Hlast| |exact Hg|now rewrite Hlast].
+  destruct pkg; [exact Hne|discriminate].
+Qed.
+
+(* isInDirectories on path strings = a test on WHOLE leading components, for every path and directory:
+   strings.HasPrefix(name, dir+"/") || name == dir  <->  dir's components are a prefix of name's components *)
+Lemma prefixb_name x y r t : forallb not_slash x = true -> forallb not_slash y = true -> sep_tail t ->
+  prefixb (x ++ SLASH :: r) (y ++ t) = str_eqb x y && prefixb (SLASH :: r) t.
+Proof.
+  revert y. induction x as [|c x IH]; intros y Hx Hy Ht.
+  - destruct y as [|d y]; [reflexivity|].
+    cbn in Hy. apply andb_prop in Hy as [Hd _]. unfold not_slash in Hd. apply negb_true_iff in Hd.
+    cbn [app prefixb str_eqb]. now rewrite Hd.
+  - cbn in Hx. apply andb_prop in Hx as [Hc Hx]. destruct y as [|d y].
+    + cbn [app str_eqb andb]. destruct Ht as [->|[t' ->]]; [reflexivity|].
+      cbn [prefixb]. unfold not_slash in Hc. apply negb_true_iff in Hc.
+      rewrite N.eqb_sym, Hc. reflexivity.
+    + cbn in Hy. apply andb_prop in Hy as [_ Hy]. cbn [app prefixb str_eqb].
+      rewrite (IH y Hx Hy Ht), (N.eqb_sym d c). now rewrite andb_assoc.
+Qed.
+
+Lemma str_eqb_name x y t u : forallb not_slash x = true -> forallb not_slash y = true -> sep_tail t -> sep_tail u ->
+  str_eqb (y ++ t) (x ++ u) = str_eqb y x && str_eqb t u.
+Proof.
+  revert x. induction y as [|d y IH]; intros x Hx Hy Ht Hu.
+  - destruct x as [|c x]; [reflexivity|].
+    cbn in Hx. apply andb_prop in Hx as [Hc _]. unfold not_slash in Hc. apply negb_true_iff in Hc.
+    cbn [app str_eqb andb]. destruct Ht as [->|[t' ->]]; [reflexivity|]. cbn [str_eqb].
+    now rewrite N.eqb_sym, Hc.
+  - cbn in Hy. apply andb_prop in Hy as [Hd Hy]. destruct x as [|c x].
+    + cbn [app str_eqb andb]. destruct Hu as [->|[u' ->]]; [reflexivity|]. cbn [str_eqb].
+      unfold not_slash in Hd. apply negb_true_iff in Hd. now rewrite Hd.
+    + cbn in Hx. apply andb_prop in Hx as [_ Hx]. cbn [app str_eqb].
+      rewrite (IH x Hx Hy Ht Hu). now rewrite andb_assoc.
+Qed.
+
+Theorem in_directory_whole_components d : d <> [] -> forallb name_ok d = true ->
+  forall g, g <> [] -> forallb name_ok g = true ->
+    is_in_directories (intercalate g) [intercalate d] = is_prefix_segs d g.
+Proof.
+  intros Hne Hd g Hgne Hg.
+  assert (E : is_in_directories (intercalate g) [intercalate d]
+              = prefixb (intercalate d ++ [SLASH]) (intercalate g) || str_eqb (intercalate g) (intercalate d)).
+  { unfold is_in_directories. cbn [existsb]. now rewrite orb_false_r. }
+  rewrite E. clear E. revert Hne Hd g Hgne Hg.
+  induction d as [|x d IH]; intros Hne Hd g Hgne Hg; [congruence|].
+  destruct g as [|y g]; [congruence|].
+  cbn [forallb] in Hd, Hg. apply andb_prop in Hd as [Hx Hd]. apply andb_prop in Hg as [Hy Hg].
+  pose proof (name_ok_not_slash x Hx) as Hxs. pose proof (name_ok_not_slash y Hy) as Hys.
+  rewrite !intercalate_cons. cbn [is_prefix_segs].
+  rewrite (str_eqb_name x y _ _ Hxs Hys (sep_tail_tail g) (sep_tail_tail d)).
+  rewrite <- app_assoc.
+  destruct d as [|z d].
+  - cbn [tail_str app]. rewrite (prefixb_name x y [] _ Hxs Hys (sep_tail_tail g)).
+    rewrite (str_eqb_sym y x). destruct (str_eqb x y); [|reflexivity]. cbn [andb].
+    destruct g; reflexivity.
+  - cbn [tail_str app]. rewrite (prefixb_name x y _ _ Hxs Hys (sep_tail_tail g)).
+    rewrite (str_eqb_sym y x). destruct (str_eqb x y); [|reflexivity]. cbn [andb].
+    destruct g as [|y2 g]; [reflexivity|].
+    cbn [tail_str prefixb str_eqb]. rewrite N.eqb_refl. cbn [andb].
+    apply IH; [discriminate|exact Hd|discriminate|exact Hg].
+Qed.
